@@ -64,6 +64,147 @@ pub enum Layout {
     /// fixed by the shape and there is a single path.  Covers block moves, duplicated blocks,
     /// repeated items across a shared head / tail on inputs of up to 15 items a side.
     Blocks { old: [u8; 5], new: [u8; 5], blen: usize },
+    /// long structured inputs (dozens to hundreds of items): a named family `fam` with size
+    /// parameter `k` and variant `var` (see `long_pattern`); each side is a sequence over a pool
+    /// of pairwise different symbolic items (one z3 distinct, one hash class per pool item), so
+    /// the equality pattern is fixed by the shape and there is a single path.  `pad`: bits 0-1 /
+    /// 2-3 = number of extra (different) items in front of the old / new range (sub-ranges at
+    /// unequal offsets).
+    Long { fam: u8, k: u16, var: u8, pad: u8 },
+}
+
+/// The item pattern (indices into the pool of pairwise different items) of a long family.
+pub fn long_pattern(fam: u8, k: usize, var: u8) -> (Vec<u32>, Vec<u32>, &'static str) {
+    let rep = |unit: &[u32], times: usize| -> Vec<u32> { (0..times).flat_map(|_| unit.iter().copied()).collect() };
+    let cat = |parts: &[&[u32]]| -> Vec<u32> { parts.iter().flat_map(|p| p.iter().copied()).collect() };
+    match fam {
+        // a long changed stretch of repeated items between two items that are unique on both sides
+        0 => {
+            let (o, n) = (rep(&[2, 3], k), rep(&[3, 2], k));
+            match var {
+                0 => (cat(&[&[0], &o, &[1]]), cat(&[&[0], &n, &[1]]), "U (A B)^k V  against  U (B A)^k V"),
+                1 => (cat(&[&[0], &o, &[1]]), cat(&[&[0], &n, &[1, 4]]), "U (A B)^k V  against  U (B A)^k V W"),
+                _ => (cat(&[&[5, 0], &o, &[1], &o, &[6]]), cat(&[&[5, 0], &n, &[1], &n, &[6]]), "T U (A B)^k V (A B)^k X  against  T U (B A)^k V (B A)^k X"),
+            }
+        }
+        // few unique items in a long repetitive body, moved across it
+        1 => match var {
+            0 => (cat(&[&[0, 1], &rep(&[2, 3], k)]), cat(&[&rep(&[2, 3], k), &[0, 1]]), "U1 U2 (A B)^k  against  (A B)^k U1 U2"),
+            1 => (cat(&[&[0], &rep(&[2, 3], k)]), cat(&[&rep(&[2, 3], k), &[0]]), "U (A B)^k  against  (A B)^k U"),
+            2 => (cat(&[&[0, 1], &rep(&[2, 3, 4], k)]), cat(&[&rep(&[2, 3, 4], k), &[0, 1]]), "U1 U2 (A B C)^k  against  (A B C)^k U1 U2"),
+            _ => (cat(&[&rep(&[2, 3], k), &[0], &rep(&[2, 3], 3), &[1]]), cat(&[&[1], &rep(&[2, 3], k), &[0], &rep(&[2, 3], 3)]), "(A B)^k U1 (A B)^3 U2  against  U2 (A B)^k U1 (A B)^3"),
+        },
+        // k different items a side with only a few common items in the interior
+        2 => {
+            let mut o: Vec<u32> = (0..k as u32).map(|i| 10 + i).collect();
+            let mut n: Vec<u32> = (0..k as u32).map(|i| 10 + k as u32 + i).collect();
+            let name = match var {
+                0 => {
+                    for (j, p) in [k / 4, k / 2, 3 * k / 4].iter().enumerate() {
+                        o[*p] = 1 + j as u32;
+                        n[*p] = 1 + j as u32;
+                    }
+                    "k different items a side, 3 common items at the same interior positions"
+                }
+                1 => {
+                    for (j, (p, q)) in [(k / 4, k / 4 + 5), (k / 2, k / 2 - 7), (3 * k / 4, 3 * k / 4 + 3)].iter().enumerate() {
+                        o[*p] = 1 + j as u32;
+                        n[*q] = 1 + j as u32;
+                    }
+                    "k different items a side, 3 common items at shifted interior positions"
+                }
+                _ => {
+                    o[k / 2] = 1;
+                    n[k / 3] = 1;
+                    "k different items a side, 1 common item"
+                }
+            };
+            (o, n, name)
+        }
+        // every value twice, three positions apart, one value only once near the front
+        3 => {
+            let mut o = vec![];
+            for j in 0..(k / 2) as u32 {
+                o.push(j + 1);
+                o.push(j);
+            }
+            o.push((k / 2) as u32);
+            let mut n = o.clone();
+            let name = match var {
+                0 => "1 0 2 1 3 2 ... (every value twice, 0 once)  against itself",
+                1 => {
+                    let p = 3 * n.len() / 4;
+                    n[p] = 100_000;
+                    "1 0 2 1 3 2 ...  against itself with one item replaced"
+                }
+                _ => {
+                    n.insert(n.len() / 2, 100_000);
+                    "1 0 2 1 3 2 ...  against itself with one item inserted"
+                }
+            };
+            (o, n, name)
+        }
+        // long runs / periodic stretches that grow or shrink by one period
+        4 => match var {
+            0 => (rep(&[0], k), rep(&[0], k + 1), "x^k  against  x^(k+1)"),
+            1 => (rep(&[0, 1], k), rep(&[0, 1], k + 1), "(a b)^k  against  (a b)^(k+1)"),
+            2 => (rep(&[0, 1, 2], k), rep(&[0, 1, 2], k + 1), "(a b c)^k  against  (a b c)^(k+1)"),
+            3 => (rep(&[0], k), rep(&[0], k - 1), "x^k  against  x^(k-1)"),
+            4 => (cat(&[&[5], &rep(&[0], k), &[6]]), cat(&[&[5], &rep(&[0], k + 1), &[6]]), "p x^k q  against  p x^(k+1) q"),
+            _ => (cat(&[&[5], &rep(&[0, 1], k), &[6]]), cat(&[&[5], &rep(&[0, 1], k - 1), &[6]]), "p (a b)^k q  against  p (a b)^(k-1) q"),
+        },
+        // k different items with one adjacent duplicate (block) removed / added
+        5 => {
+            let base: Vec<u32> = (0..k as u32).collect();
+            let mut dup = base.clone();
+            let name = match var {
+                0 | 1 => {
+                    dup.insert(k / 2, base[k / 2]);
+                    "k different items, one of them doubled  against  the k items (and the reverse)"
+                }
+                _ => {
+                    for (j, x) in base[k / 2..k / 2 + 3].iter().enumerate() {
+                        dup.insert(k / 2 + 3 + j, *x);
+                    }
+                    "k different items, a block of 3 doubled  against  the k items (and the reverse)"
+                }
+            };
+            if var % 2 == 0 {
+                (dup, base, name)
+            } else {
+                (base, dup, name)
+            }
+        }
+        // k different items, every 16th replaced
+        _ => {
+            let o: Vec<u32> = (0..k as u32).collect();
+            let n: Vec<u32> = (0..k as u32).map(|i| if i % 16 == 7 { 100_000 + i } else { i }).collect();
+            (o, n, "k different items  against  the same with every 16th item replaced")
+        }
+    }
+}
+
+/// The long structured families used by the per-property checks.
+pub fn long_layouts(thorough: bool) -> Vec<Layout> {
+    let mut v = vec![];
+    let quick: &[(u8, u16, u8)] = &[
+        (0, 20, 0), (0, 40, 1), (0, 17, 2), (1, 75, 0), (1, 60, 1), (1, 50, 2), (1, 70, 3), (2, 300, 0), (2, 280, 1), (2, 130, 2),
+        (3, 101, 0), (3, 151, 1), (3, 61, 2), (4, 150, 0), (4, 60, 1), (4, 40, 2), (4, 120, 3), (4, 130, 4), (4, 70, 5),
+        (5, 130, 0), (5, 130, 1), (5, 120, 2), (5, 120, 3), (6, 160, 0),
+    ];
+    let more: &[(u8, u16, u8)] = &[
+        (0, 33, 0), (0, 64, 0), (0, 100, 1), (1, 150, 0), (1, 128, 1), (1, 100, 2), (2, 520, 0), (2, 400, 1), (2, 257, 2),
+        (3, 301, 0), (3, 401, 1), (3, 201, 2), (4, 300, 0), (4, 128, 1), (4, 101, 2), (4, 257, 3), (4, 256, 4), (4, 129, 5),
+        (5, 101, 0), (5, 257, 1), (5, 300, 2), (5, 99, 3), (6, 400, 0),
+    ];
+    for &(fam, k, var) in quick.iter().chain(if thorough { more.iter() } else { [].iter() }) {
+        v.push(Layout::Long { fam, k, var, pad: 0 });
+    }
+    // sub-ranges at unequal offsets
+    for &(fam, k, var, pad) in &[(0u8, 20u16, 0u8, 0b0110u8), (2, 300, 0, 0b0001), (4, 150, 0, 0b1000), (5, 130, 0, 0b0111), (1, 75, 0, 0b0100), (3, 101, 1, 0b1001)] {
+        v.push(Layout::Long { fam, k, var, pad });
+    }
+    v
 }
 
 impl Layout {
@@ -81,6 +222,9 @@ impl Layout {
             Layout::Blocks { old, new, blen } => {
                 serde_json::json!({"kind":"blocks","old":old.to_vec(),"new":new.to_vec(),"blen":blen})
             }
+            Layout::Long { fam, k, var, pad } => {
+                serde_json::json!({"kind":"long","fam":fam,"k":k,"var":var,"pad":pad,"pattern":long_pattern(fam, k as usize, var).2})
+            }
         }
     }
     pub fn from_json(v: &serde_json::Value) -> Layout {
@@ -92,6 +236,8 @@ impl Layout {
                 pre_n: g("pre_n"),
                 post_n: g("post_n"),
             }
+        } else if v["kind"] == "long" {
+            Layout::Long { fam: g("fam") as u8, k: g("k") as u16, var: g("var") as u8, pad: g("pad") as u8 }
         } else if v["kind"] == "blocks" {
             let arr = |k: &str| -> [u8; 5] {
                 let mut a = [255u8; 5];
@@ -182,6 +328,32 @@ pub fn make_inputs(n: usize, m: usize, layout: Layout) -> Inputs {
                 nr: 0..nw.len(),
                 old_items: o.clone(),
                 new_items: nw.clone(),
+                old: Seq::Slice(o),
+                new: Seq::Slice(nw),
+            }
+        }
+        Layout::Long { fam, k, var, pad } => {
+            let (po, pn, _) = long_pattern(fam, k as usize, var);
+            let (pre_o, pre_n) = ((pad & 3) as usize, ((pad >> 2) & 3) as usize);
+            let mut pool: std::collections::BTreeMap<u32, Sym> = std::collections::BTreeMap::new();
+            for x in po.iter().chain(pn.iter()) {
+                pool.entry(*x).or_insert_with(Sym::fresh);
+            }
+            let pads = Sym::fresh_vec(pre_o + pre_n);
+            let ids: Vec<u32> = pool.values().chain(pads.iter()).map(|x| x.0).collect();
+            engine::assume(&F::Distinct(ids.clone()));
+            for id in ids {
+                engine::set_hash_class(id, id as u64);
+            }
+            let oi: Vec<Sym> = po.iter().map(|x| pool[x]).collect();
+            let ni: Vec<Sym> = pn.iter().map(|x| pool[x]).collect();
+            let o: Vec<Sym> = pads[..pre_o].iter().chain(oi.iter()).copied().collect();
+            let nw: Vec<Sym> = pads[pre_o..].iter().chain(ni.iter()).copied().collect();
+            Inputs {
+                or: pre_o..o.len(),
+                nr: pre_n..nw.len(),
+                old_items: oi,
+                new_items: ni,
                 old: Seq::Slice(o),
                 new: Seq::Slice(nw),
             }
@@ -817,6 +989,10 @@ pub fn layout_lens(l: &Layout, n: usize, m: usize) -> (usize, usize) {
         Layout::Blocks { old, new, blen } => {
             let f = |bs: &[u8; 5]| bs.iter().filter(|b| **b != 255).map(|b| block_type_len(*b as usize, *blen)).sum::<usize>();
             (f(old), f(new))
+        }
+        Layout::Long { fam, k, var, .. } => {
+            let (o, nw, _) = long_pattern(*fam, *k as usize, *var);
+            (o.len(), nw.len())
         }
         _ => (n, m),
     }
